@@ -3978,7 +3978,9 @@ pub struct Context {
     idm: Singleton<IdManager>,
     document: Rc<XmlItem>,
     ordering: Singleton<DocumentOrder>,
-    id_map: Singleton<HashMap<usize, Weak<XmlItem>>>,
+    // The table owns the items: a node created by a factory, removed from its parent or moved
+    // must stay reachable for the children that name it as their parent.
+    id_map: Singleton<HashMap<usize, Rc<XmlItem>>>,
     text_expanded: bool,
 }
 
@@ -4001,12 +4003,12 @@ impl Context {
 
         let info = singleton(ContextInfo::from(id));
 
-        let document = Rc::new(value.into());
+        let document: Rc<XmlItem> = Rc::new(value.into());
 
         let id_map = singleton(HashMap::new());
         id_map
             .borrow_mut()
-            .insert(info.borrow().id, Rc::downgrade(&document));
+            .insert(info.borrow().id, document.clone());
 
         Context {
             info,
@@ -4021,7 +4023,7 @@ impl Context {
     fn add_item(&self, node: &Rc<XmlItem>) {
         self.id_map
             .borrow_mut()
-            .insert(self.info.borrow().id, Rc::downgrade(node));
+            .insert(self.info.borrow().id, node.clone());
     }
 
     fn document(&self) -> XmlNode<XmlDocument> {
@@ -4073,7 +4075,7 @@ impl Context {
     }
 
     fn node(&self, id: usize) -> Option<Rc<XmlItem>> {
-        self.id_map.borrow().get(&id).and_then(|v| v.upgrade())
+        self.id_map.borrow().get(&id).cloned()
     }
 
     fn rebuild_order(&self) {
